@@ -20,6 +20,7 @@ def describe(ck):
     ck.rule("R06a", "for each format: every token the reader searches for is a substring of a literal the writer of that format emits, and no detection token of format X occurs in a writer literal of format Y")
     ck.rule("R06b", "every copy into msa_seq.name in a reader is bounded by the buffer it writes into (MSA_NAME_LEN-1 guard or allocation size = copy length)")
     ck.rule("R06c", "rows are associated with sequences by position or full-length name comparison; a strncmp whose length is the strlen of one operand (prefix match) does not select a sequence")
+    ck.rule("R06e", "lines of any width are read whole (names of 200 characters make block rows of 265+ columns) (= R04h)")
     ck.rule("R06d", "writers emit exactly the columns [0, alnlen) of every row (= R15e; recognised loop shapes only, otherwise no verdict)")
     ck.not_decided += ["equality of the re-read alignment (parser semantics over all names and widths)"]
 
@@ -339,6 +340,15 @@ def run(ck, progs):
         before = len(ck.instances)
         ck.attempt(c15.r15e, ck, prog)
         ck.attempt(c15.r15g, ck, prog)
+        from . import c04
+        b1 = len(ck.instances)
+        ck.attempt(c04.r04h, ck, prog)
+        for i in ck.instances[b1:]:
+            i["rule"] = "R06e"
+        for v in ck.violations:
+            if v["rule"] == "R04h":
+                v["rule"] = "R06e"
+                v["key"] = v["key"].replace("R04h", "R06e")
         for i in ck.instances[before:]:
             i["rule"] = "R06d"
         for v in ck.violations:
